@@ -18,8 +18,8 @@ def jobs(tier):
     for seg in (0, 1):
         out.append(dict(name='eps_roundtrip_3pt_seg%d' % seg, src='h_satfunc.cpp', defs={'NT': 3, 'THREEPT': 1, 'SEG': seg}, entry='h_eps_roundtrip', fp='real', loopmax=2000, maxsteps=4000000,
                         bounds='three-point scaling, inverse map on sub-interval %d' % seg, opts=['--qtimeout', '60000']))
-    for same in (0, 1):
-        out.append(dict(name='hysteresis_carlson%s' % ('_same' if same else ''), src='h_hyst.cpp', defs={'SAMECURVES': same}, entry='h_carlson', fp='real', loopmax=2000, maxsteps=8000000, timeout=900, partial_sites=True,
+    for same, krm in ((0, 0), (1, 0), (0, 1)):
+        out.append(dict(name='hysteresis_carlson%s%s' % ('_same' if same else '', '_model1' if krm else ''), src='h_hyst.cpp', defs={'SAMECURVES': same, 'KRMODEL': krm}, entry='h_carlson', fp='real', loopmax=2000, maxsteps=8000000, timeout=900, partial_sites=True,
                         bounds='Carlson non-wetting relperm hysteresis, concrete 3-node drainage and imbibition tables, two symbolic saturations seen in sequence, symbolic query point%s' % (' ; identical curves' if same else '')))
     out.append(dict(name='hysteresis_disabled', src='h_hyst.cpp', defs={}, entry='h_disabled', fp='real', loopmax=2000, maxsteps=8000000, timeout=900, bounds='hysteresis switched off'))
     return out
